@@ -379,6 +379,12 @@ func (c *FnCtx) applyCallee(st *State, site ast.Node, key string, sig *types.Sig
 	isRepo := strings.HasPrefix(key, repoPrefix)
 	nres := sig.Results().Len()
 	fiCallee := c.eng.funcs[key]
+	// the callee's contract is written in the scope of the callee's package
+	if fiCallee != nil && fiCallee.Pkg != nil && fiCallee.Pkg.Types != nil && fiCallee.Pkg.Types != c.pkg {
+		save := c.pkg
+		c.pkg = fiCallee.Pkg.Types
+		defer func() { c.pkg = save }()
+	}
 	if isRepo && recv != nil && fiCallee != nil && isPointer(fiCallee.Obj.Type().(*types.Signature).Recv().Type()) && (ct == nil || !ct.NilRecv) {
 		// implicit precondition of every pointer-receiver method: the receiver is not nil
 		g := mkNot(mkEq(recv, intLit(0)))
